@@ -169,7 +169,7 @@ class StreamRun:
 
     def call(self, coro) -> str:
         try:
-            self.loop.run_until_complete(asyncio.wait_for(coro, 1))
+            self.loop.run_until_complete(asyncio.wait_for(coro, 2))
             return "ok"
         except BaseException as err:  # noqa: BLE001
             return res_of(err)
